@@ -220,6 +220,98 @@ impl WeightProbe {
     }
 }
 
+
+// ---------------------------------------------------------------------------------------------
+// B2: the stateless default adapter (DefaultRng<R>, what with_sampling() / sample_by_* use with
+// ThreadRng) must hand through exactly the words of R
+
+thread_local! {
+    static TL_WORD: std::cell::Cell<u64> = const { std::cell::Cell::new(0) };
+}
+/// stateless rng (`Default`, like ThreadRng) whose word is set per thread by the harness
+#[derive(Default)]
+pub struct TlRng;
+impl rand::RngCore for TlRng {
+    fn next_u32(&mut self) -> u32 {
+        TL_WORD.with(|w| w.get()) as u32
+    }
+    fn next_u64(&mut self) -> u64 {
+        TL_WORD.with(|w| w.get())
+    }
+    fn fill_bytes(&mut self, dst: &mut [u8]) {
+        let w = self.next_u64().to_le_bytes();
+        for (i, b) in dst.iter_mut().enumerate() {
+            *b = w[i % 8];
+        }
+    }
+}
+
+#[derive(Clone, Debug, Serialize, Deserialize)]
+pub struct AdapterCase {
+    pub rate_bits: u32,
+    pub words: Vec<u64>,
+}
+
+fn check_default_adapter(case: &AdapterCase) -> CaseResult {
+    use metrique_writer::sample::DefaultRng;
+    let rate = f32::from_bits(case.rate_bits);
+    let mut classes: Classes = vec![];
+    // reference: the explicit-rng path (decided by c12-weight / c12-fixed-fraction-decision)
+    let mut reference = WeightProbe::new();
+    let mut adapted = EmfCfg::simple(Ctor::NoValidations)
+        .build()
+        .with_sampling_and_rng(DefaultRng::<TlRng>::default());
+    let rec = RecFormat::default();
+    let calls = rec.calls.clone();
+    let mut fixed = no_panic("fixed-fraction-new", || {
+        FixedFractionSample::with_rng(rec, rate, DefaultRng::<TlRng>::default())
+    })?;
+    let entry = reference.entry.clone();
+    let (fl, is_int) = exact_inv(rate.max(2f32.powi(-100)));
+    let mut out = Vec::with_capacity(256);
+    for w in &case.words {
+        TL_WORD.with(|c| c.set(*w));
+        reference.rng.word.store(*w, Ordering::Relaxed);
+        reference.out.clear();
+        let p = entry.prepare();
+        let r1 = no_panic("emf-sampled-format", || reference.emf.format_with_sample_rate(&p, &mut reference.out, rate))?;
+        out.clear();
+        let r2 = no_panic("emf-sampled-format", || adapted.format_with_sample_rate(&p, &mut out, rate))?;
+        vensure!(r1.is_ok() && r2.is_ok(), "weight:format-failed", "rate {rate:e}: {r1:?} / {r2:?}");
+        vensure!(
+            reference.out == out,
+            "weight:default-rng-adapter-differs",
+            "rate {rate:e} word {w:#x}: SampledEmf over DefaultRng<R> wrote {:?} but over R itself {:?}",
+            String::from_utf8_lossy(&out),
+            String::from_utf8_lossy(&reference.out)
+        );
+        // decision through the adapter
+        let before = calls.lock().unwrap().len();
+        let q = GenEntry::default();
+        let pq = q.prepare();
+        let r = no_panic("fixed-fraction-format", || fixed.format(&pq, &mut io::sink()))?;
+        vensure!(r.is_ok(), "sample:format-error", "format returned {r:?}");
+        let n = calls.lock().unwrap().len() - before;
+        let draw = f32_draw(*w);
+        let expect_emit = draw <= rate || rate == 1.0;
+        vensure!(
+            n == expect_emit as usize,
+            "sample:decision-not-draw-le-rate",
+            "through DefaultRng<R>: rate={rate:e} draw={draw:e}: emitted {n} time(s), expected {}",
+            expect_emit as u8
+        );
+        if (*w >> 32) != 0 && (*w as u32) != (*w >> 32) as u32 {
+            classes.push("word-with-distinct-halves");
+        }
+    }
+    if !is_int && fl >= 1 && fl < (1u128 << 53) && classes.contains(&"word-with-distinct-halves") {
+        classes.push("nt");
+    }
+    classes.sort();
+    classes.dedup();
+    Ok(classes)
+}
+
 /// exact floor(1/r) and whether 1/r is an integer, for a positive finite f32 >= 2^-100
 fn exact_inv(r: f32) -> (u128, bool) {
     let bits = r.to_bits();
@@ -813,6 +905,21 @@ pub fn run(ctx: &mut Ctx) {
             let mut p = WeightProbe::new();
             check_weight_expectation(&mut p, f32::from_bits(c.rate_bits))
         },
+    );
+
+    ctx.explore(
+        SubCfg::new(
+            "c12-default-rng-adapter",
+            "the stateless adapter DefaultRng<R> (what with_sampling() and the sample_by_* constructors use over ThreadRng), instantiated over a scripted stateless R: arbitrary rates x 1-8 draw words (full 64-bit words, words at the floor/ceiling switch of the rate). Oracle (differential against the explicit-rng path, which c12-weight decides exactly): SampledEmf over DefaultRng<R> writes byte-identical output to SampledEmf over R for the same word; FixedFractionSample over DefaultRng<R> emits iff draw <= rate. Non-trivial = 1/rate not an integer and a word whose two 32-bit halves differ",
+            if q { 30_000 } else { 600_000 },
+        )
+        .threads(threads)
+        .mandatory(&["word-with-distinct-halves"]),
+        || {
+            (arb_rate_bits_valid(), prop::collection::vec(prop_oneof![3 => any::<u64>(), 1 => any::<u32>().prop_map(|w| w as u64), 2 => (0u64..(1 << 53)).prop_map(|i| i << 11)], 1..8))
+                .prop_map(|(rate_bits, words)| AdapterCase { rate_bits, words })
+        },
+        check_default_adapter,
     );
 
     if ctx.replay.is_none() {
